@@ -31,13 +31,15 @@ CLAIMED = {
         "the theorems are about the model; the tie to raw.py/util.py is the wire-trace correspondence (sampled); conformant agent semantics are spec-side definitions",
     ),
     "C03": (
-        "proof: on the Python-faithful model, for an ARBITRARY exchange function and pairwise disjoint roots: the "
-        "GETNEXT walk never requests an OID twice, continues only from OIDs the agent returned, issues at most |U|+1 "
-        "requests (U = OIDs the agent ever returns) and cannot be stopped by the loop budget (C03_getnext_bound); a "
-        "non-advancing answer is refused as FaultySNMPImplementation and ends the walk at once, strict or lenient; "
-        "bulk fetcher: first-repetition progress proved; traces against all agent functions over a 3-OID universe and "
-        "random scripted agents correspond (GETNEXT and bulk)",
-        "the |U|+1 bound for the bulk walk is checked by the oracle and correspondence on the implementation, its Lean proof (multi-row regrouping) is not done; nested roots are outside the theorem",
+        "proof: on the Python-faithful model, for an ARBITRARY exchange function and pairwise disjoint roots, GETNEXT walk "
+        "(C03_getnext_bound) and bulk walk with any repetition count (C03_bulk_bound): no OID the walk continues from occurs "
+        "twice, every such OID was returned by the agent, at most |U|+1 fetch rounds (U = OIDs the agent ever returns), and the "
+        "loop budget is never what stops the walk; every response accepted by the bulk fetcher's per-column check advances "
+        "every column (cc_columns); a non-advancing answer is refused as FaultySNMPImplementation and ends the walk at once, "
+        "strict or lenient; traces against all agent functions over a 3-OID universe, random scripted agents and starved / "
+        "truncating agents correspond (GETNEXT and bulk)",
+        "the bound counts fetch rounds: the bulk fetcher's completion requests inside one round (at most one per column, each "
+        "adding a binding or ending the round) are covered by the model and correspondence; nested roots are outside the theorem",
     ),
     "C04": (
         "proof: result of every single-exchange operation stated outright as a function of the accepted response (values in "
